@@ -107,7 +107,9 @@ Definition check_unzip (tab : list seg) (ar : list entry) (u : uobs) : bool :=
   let r := unzip (dec tab (u_dest u)) ar (mk_fs par (dec_nodes tab (u_before u))) in
   N.eqb (ures_code (snd r)) (u_res u) && fs_matches par (fst r) (dec_nodes tab (u_after u)).
 
-Definition check_zrun_as (tab : list seg) (src : rpath) (t : tree) (z : zrun) : bool :=
+(* [src]: the srcDir string exactly as the harness passed it (absolute or
+   relative to the working directory it set, clean or not) *)
+Definition check_zrun (tab : list seg) (src : rpath) (t : tree) (z : zrun) : bool :=
   match zip_folder src (filt_of (z_filter z)) (z_rec z) t with
   | ZOk es =>
       N.eqb (z_res z) 0 &&
@@ -115,15 +117,6 @@ Definition check_zrun_as (tab : list seg) (src : rpath) (t : tree) (z : zrun) : 
   | ZErr => N.eqb (z_res z) 1
   | ZPanic => N.eqb (z_res z) 2
   end.
-
-(* the source directory as the harness spelled it; for a spelling that is not
-   clean ("a//b", "a/./b", "a/.") ZipFolder cuts entry names at the wrong
-   byte (see C20_zip_unclean_src_mangles_names): there the observation is
-   accepted when it is what the model says for the given spelling OR what it
-   says for the cleaned spelling (what a repaired ZipFolder would do).  For a
-   clean spelling both are the same term. *)
-Definition check_zrun (tab : list seg) (src : rpath) (t : tree) (z : zrun) : bool :=
-  check_zrun_as tab src t z || check_zrun_as tab (clean_str src) t z.
 
 Definition opath_eqb (a b : option rpath) : bool :=
   match a, b with
